@@ -95,10 +95,14 @@ func minimise(p *Prop, t *Trial, class string, budget int) (*Trial, int) {
 			}
 		}
 		// 2. workload
-		if p.Shrink != nil {
+		shrink := p.Shrink
+		if shrink == nil && !p.NoShrink {
+			shrink = func(t *Trial) []*Trial { return genericShrink(t, p.ShrinkColumns) }
+		}
+		if shrink != nil {
 			for again := true; again && m.tries < m.budget; {
 				again = false
-				for _, c := range p.Shrink(best) {
+				for _, c := range shrink(best) {
 					for i := range c.Runs {
 						c.Runs[i].Arity = nil
 					}
